@@ -87,7 +87,7 @@ func Setup() {
 }
 
 func genOpts() hx.GenOpts {
-	o := hx.GenOpts{MaxEvents: 4, MaxDepth: 2, Attrs: 1, NS: 0, Other: true, SymNames: true, TopLevel: true, TextLen: 0}
+	o := hx.GenOpts{MaxEvents: 4, MaxDepth: 2, Attrs: 1, NS: 1, Other: true, SymNames: true, TopLevel: true, TextLen: 0}
 	if nd.Tier() > 0 {
 		o.MaxEvents, o.MaxDepth, o.Attrs = 6, 3, 2
 	}
